@@ -31,6 +31,7 @@ SPECS = [
     ('diag_2d', True), ('diag_5', True), ('diag_tree_neg', True), ('dense_widening', True), ('bdiag_widening', True),
     ('lazy_inv_spd', False), ('toast_obs', True), ('toast_obs_T', True),
     ('opt_k1arr_times_0d', True), ('opt_0d_div_k1arr', True), ('opt_k11arr_times_tree0d', True), ('opt_diag_trailing_unit', True),
+    ('comp_ptp_index', True), ('comp_ppt_index_unique', True), ('comp_ptp_index_2d', True),
     ('toep_dense_wide', True), ('toep_os_n8', False), ('toep_os_k2n6', False), ('toep_os_k1n3', False), ('rot_iqu_far', False), ('rot_qu_far_T', False),
 ]
 SPEC_NAMES = [s[0] for s in SPECS]
@@ -38,7 +39,7 @@ EXACT = dict(SPECS)
 NO_TRANSPOSE = {'lazy_inv_spd'}          # the library does not support transposes of the iterative inverse
 # opt_*: constructions the library may legitimately refuse (ValueError/TypeError); if it accepts them, every oracle applies
 OPTIONAL = {'opt_k1arr_times_0d', 'opt_0d_div_k1arr', 'opt_k11arr_times_tree0d', 'opt_diag_trailing_unit'}
-SINGLE_ONLY = OPTIONAL | {'toep_os_n8', 'toep_os_k2n6', 'toep_os_k1n3', 'toep_os', 'toep_batched', 'toep_os_short', 'dense_widening', 'bdiag_widening', 'dense_complex', 'diag_complex', 'hom_complex', 'diag_tree_mixed', 'hom_tree_mixed', 'hom_unit_widening'}  # widening: float16 data would overflow in products  # ~100 ms per application (fori_loop re-traced): singles only; C09 owns the methods
+SINGLE_ONLY = OPTIONAL | {'comp_ptp_index', 'comp_ppt_index_unique', 'comp_ptp_index_2d', 'toep_os_n8', 'toep_os_k2n6', 'toep_os_k1n3', 'toep_os', 'toep_batched', 'toep_os_short', 'dense_widening', 'bdiag_widening', 'dense_complex', 'diag_complex', 'hom_complex', 'diag_tree_mixed', 'hom_tree_mixed', 'hom_unit_widening'}  # widening: float16 data would overflow in products  # ~100 ms per application (fori_loop re-traced): singles only; C09 owns the methods
 MASKED = {'index_mask', 'pack_iqu', 'pack_iqu_T'}  # boolean-mask selection: excluded from the filter_jit-as-argument claim
 
 _MEMO: dict = {}
@@ -221,6 +222,15 @@ def _build(name, dt):
         return np.asarray([[0.5]], dtype=np.dtype(D)) * IndexOperator((0,), in_structure={'u': a, 'v': m})
     if name == 'opt_diag_trailing_unit':  # diagonal values whose trailing unit axis reaches beyond the rank of one leaf
         return DiagonalOperator(arr([[2], [3]]), axis_destination=0, in_structure={'tod': m, 'ground': a})
+    if name == 'comp_ptp_index':      # the very same operator on both sides: the pair the hit-count rule recognises
+        Pi = IndexOperator(jnp.array([0, 2, 2, -1]), in_structure=b, out_structure=sds(4))
+        return Pi.T @ Pi
+    if name == 'comp_ptp_index_2d':
+        Pi = IndexOperator((Ellipsis, jnp.array([[0, 2], [2, 2]])), in_structure=m)
+        return Pi.T @ Pi
+    if name == 'comp_ppt_index_unique':
+        Pi = IndexOperator(jnp.array([2, 0]), in_structure=b, unique_indices=True)
+        return Pi @ Pi.T
     if name == 'toep_dense_wide':  # far more band values than samples (offsets beyond n + 2)
         return SymmetricBandToeplitzOperator(arr([4, 1, 0.5, 0.25, 2, -1, 3, 0.125, -0.5]), sds(5), method='dense')
     if name == 'toep_os_n8':       # lengths for which the last kept sample falls on a block boundary of the default FFT size
